@@ -1035,3 +1035,24 @@ func MapKeys[M ~map[K]V, K comparable, V any](m M) []K {
 	}
 	return out
 }
+
+// ObserveHook, when set by a harness, receives the arguments and the result of
+// every call the instrumenter routed through Observe1/Observe2 (only while a
+// simulation is active). It runs in the calling task and must not block.
+var ObserveHook func(name string, args []any, result any)
+
+func Observe1[A, R any](name string, f func(A) R, a A) R {
+	r := f(a)
+	if h := ObserveHook; h != nil && cur.Load() != nil {
+		h(name, []any{a}, r)
+	}
+	return r
+}
+
+func Observe2[A, B, R any](name string, f func(A, B) R, a A, b B) R {
+	r := f(a, b)
+	if h := ObserveHook; h != nil && cur.Load() != nil {
+		h(name, []any{a, b}, r)
+	}
+	return r
+}
